@@ -105,7 +105,45 @@ def generate_big(rng, tier):
             ok = False
         if ok:
             cs.append(c)
+    # wide nodes over many DISTINCT variables ("at least one of these 20 cells", "exactly k of them", a long sum)
+    bools = [i for i, d in enumerate(decls) if d["t"] == "b"]
+    ints = [i for i, d in enumerate(decls) if d["t"] == "i"]
+    for _ in range(rng.randint(0, 3)):
+        kind = rng.choice(["fold_or", "fold_and", "count", "nadd", "orn", "andn"])
+        if kind in ("nadd",) and len(ints) >= 4:
+            items = [["i", i] for i in rng.sample(ints, rng.randint(4, min(len(ints), 24)))]
+            node = [rng.choice(["le", "ge", "eq", "ne"]), ["nadd", items], ["c", sum(witness[i[1]] for i in items) + rng.choice([-1, 0, 0, 1])], 0]
+        elif len(bools) >= 4:
+            picked = rng.sample(bools, rng.randint(4, min(len(bools), 24)))
+            items = [["b", i] if rng.random() < 0.8 else ["not", ["b", i], 0] for i in picked]
+            if kind == "count":
+                node = [rng.choice(["le", "ge", "eq"]), ["count", items, rng.randint(0, 3)], ["c", rng.randint(0, len(items))], 0]
+            elif kind in ("orn", "andn"):
+                node = [kind, items]
+            else:
+                node = [kind if kind in ("fold_or", "fold_and") else "fold_or", items, rng.randint(0, 5)]
+        else:
+            continue
+        try:
+            if not refsem.compile_one(node)(tuple(witness)):
+                node = ["not", node, 0]
+            cs.append(node)
+        except Exception:
+            pass
     pins = [witness]
+    # boundary assignments: all low, all high, one-hot, one-cold
+    lowest = [False if d["t"] == "b" else d["lo"] for d in decls]
+    highest = [True if d["t"] == "b" else d["hi"] for d in decls]
+    pins.append(lowest)
+    pins.append(highest)
+    for _ in range(rng.randint(1, 4)):
+        i = rng.randrange(n)
+        hot = list(lowest)
+        hot[i] = highest[i]
+        pins.append(hot)
+        cold = list(highest)
+        cold[i] = lowest[i]
+        pins.append(cold)
     for _ in range(rng.randint(1, 4)):
         if rng.random() < 0.5:
             # a neighbour of the witness: differs in one or two variables
